@@ -39,6 +39,24 @@ Definition all_kill_counted_ok (c : cfg) (s : st) : bool :=
 Definition bound_partial_ok (c : cfg) (s : st) : bool :=
   (length (s_workers s) + length (s_inflight s) <=? N.to_nat (c_max c) + pred (s_peak s))%nat.
 
+(* a round of the normalizer requests no more forks than min(min()+Warm, Max)
+   minus the tracked workers its listing could see *)
+Definition round_ok (c : cfg) (tracked_at_listing requested : N) : bool :=
+  (requested <=? norm_target c - tracked_at_listing)%N.
+
+(* ... so that, with no other fork in flight, completing all of them leaves a
+   pool that was within Max within Max *)
+Definition round_within_max (c : cfg) (tracked_at_listing requested : N) : bool :=
+  (tracked_at_listing + requested <=? N.max (c_max c) tracked_at_listing)%N.
+
+(* events that change a worker's standing (errors, mirrored Ready, cache expiry)
+   but not the map: the normalizer's listing does not look at any of that *)
+Definition status_event (e : event) : bool :=
+  match e with
+  | EErr _ _ | EErrAnon | EErrClear | EFlip _ _ | EExpire _ | EErrsExpire _ => true
+  | _ => false
+  end.
+
 (* state groups: at most one member active *)
 Definition groups_ok (groups : list (list nat)) (active : list nat) : bool :=
   forallb (fun g => exclusive_ok g active) groups.
